@@ -150,7 +150,9 @@ type replRun struct {
 	nextID int
 }
 
-func replPayload(id int) []byte { return []byte(fmt.Sprintf("m%06d-%s", id, strings.Repeat("x", id%13))) }
+func replPayload(id int) []byte {
+	return []byte(fmt.Sprintf("m%06d-%s", id, strings.Repeat("x", id%13)))
+}
 func replID(b []byte) int {
 	if len(b) < 7 || b[0] != 'm' {
 		return -1
@@ -230,6 +232,12 @@ func replHistory(rec *trace.Recorder, dir string, rng *rand.Rand, steps int, tai
 		forced = []string{"hs", "append", "append", "append", "append", "append", "append", "round", "round", "round", "round", "round", "round",
 			fmt.Sprintf("losetail:%d", 2+ti), "hs", "append", "append", "round", "round", "round"}
 	}
+	// the first histories without tail loss: the follower is caught up, the leader comes back with an older image
+	// of the follower's group meta (consumed / acknowledged rolled back by 1..3), handshakes, appends, replicates
+	if !tailLoss && h < 3 {
+		forced = []string{"hs", "append", "append", "append", "append", "round", "round", "round", "round",
+			fmt.Sprintf("losegroup:%d", 1+h), "hs", "append", "append", "round", "round", "round", "round"}
+	}
 	for i := 0; i < steps; i++ {
 		*faults = replFaults{}
 		c := rng.Intn(100)
@@ -242,6 +250,10 @@ func replHistory(rec *trace.Recorder, dir string, rng *rand.Rand, steps int, tai
 			if strings.HasPrefix(op, "losetail:") {
 				loseK = int64(op[len("losetail:")] - '0')
 				op = "losetail"
+			}
+			if strings.HasPrefix(op, "losegroup:") {
+				loseK = int64(op[len("losegroup:")] - '0')
+				op = "losegroup"
 			}
 			if (op == "hs" && run.ready()) || (op == "round" && (!run.ready() || !pending)) {
 				continue
@@ -260,8 +272,10 @@ func replHistory(rec *trace.Recorder, dir string, rng *rand.Rand, steps int, tai
 				op = "flose"
 			case c < 91:
 				op = "gc"
-			case c < 95:
+			case c < 93:
 				op = "lrestart"
+			case c < 95:
+				op = "losegroup"
 			case tailLoss:
 				op = "losetail"
 			}
@@ -323,6 +337,34 @@ func replHistory(rec *trace.Recorder, dir string, rng *rand.Rand, steps int, tai
 				return
 			}
 			script = append(script, "lrestart")
+		case "losegroup":
+			g, _ := run.llog.GetOrCreateConsumerGroup("2")
+			k := loseK
+			newCons := g.ConsumedSeq() - k
+			if newCons < -1 || newCons < run.llog.Queue().AcknowledgedSeq() {
+				continue
+			}
+			newAck := g.AcknowledgedSeq()
+			if newAck > newCons {
+				newAck = newCons
+			}
+			rec.Emit("LeaderLoseGroup", trace.F{"k": k})
+			run.lpart.Stop()
+			_ = run.lpart.Close()
+			meta := filepath.Join(run.ldir, "cg", "2", "0.bat")
+			b, err := os.ReadFile(meta)
+			if err != nil {
+				sum.Unresolved = append(sum.Unresolved, "group meta: "+err.Error())
+				return
+			}
+			binary.LittleEndian.PutUint64(b[0:8], uint64(newCons))
+			binary.LittleEndian.PutUint64(b[8:16], uint64(newAck))
+			_ = os.WriteFile(meta, b, 0o644)
+			if err := run.openLeader(); err != nil {
+				sum.Unresolved = append(sum.Unresolved, err.Error())
+				return
+			}
+			script = append(script, fmt.Sprintf("losegroup:%d", k))
 		case "losetail":
 			lq := run.llog.Queue()
 			k := loseK
